@@ -907,16 +907,19 @@ theorem hybrid_parse_error {T : Type} (Lf : Nat → Bio.Lib T) (dumpf : Nat → 
     (h : conditions code = .error e) : parseHybrid Lf dumpf key code = .error e :=
   parseHybrid_of_conditions_error Lf dumpf key code e h
 
-/-- the driver's service is the service with the modelled arm whenever the adopted tables are the model's:
-the model's table where the model parses (`h`), no table where the model's hybrid arm panics on biodivine's
-name / size check (`hbad`) -/
-theorem adopted_service_is_modelled_service {T : Type} (Lf : Nat → Bio.Lib T) (dumpf : Nat → T → List Node) (o : Oracle)
-    (h : ∀ code a r, parseHybrid Lf dumpf (parseKey .hybrid code) code = .ok (a, r) →
+/-- **per submitted code**: the driver's service answers the parse of `code` as the service with the modelled arm does
+whenever the table adopted for `code` is the model's: the model's table if the model parses `code` (`h`), no table if
+the model's hybrid arm panics on biodivine's name / size check (`hbad`).  Non-vacuity: `adopted_service_example` -/
+theorem adopted_service_is_modelled_service_at {T : Type} (Lf : Nat → Bio.Lib T) (dumpf : Nat → T → List Node)
+    (o : Oracle) (code : String)
+    (h : ∀ a r, parseHybrid Lf dumpf (parseKey .hybrid code) code = .ok (a, r) →
       lookupS (parseKey .hybrid code) o.hyb = some a)
-    (hbad : ∀ code x, conditions code = .ok x → bioVarsOK x.1 = false →
+    (hbad : ∀ x, conditions code = .ok x → bioVarsOK x.1 = false →
       lookupS (parseKey .hybrid code) o.hyb = none) :
-    ∀ p code, (libEnv o).parse p code = (hybEnv Lf dumpf).parse p code :=
-  libEnv_eq_hybEnv Lf dumpf o h hbad
+    ∀ p, (libEnv o).parse p code = (hybEnv Lf dumpf).parse p code :=
+  libEnv_eq_hybEnv_at Lf dumpf o code h hbad
+
+-- (the all-codes form of this theorem was vacuous - no finite oracle satisfies its hypothesis - and was removed after the third review)
 
 /-- a successful hybrid parse: every statement name passed `BddVariableSetBuilder::make_variable`'s checks
 (none of `! & | ^ = < > ( ) ? :`, at most 65 534 names) - the `bioNameOK` condition of the CLI theorems,
@@ -1236,6 +1239,21 @@ def oHyb : SrvC.Oracle :=
       | .ok (a, _) => [(SrvC.parseKey .hybrid code1, a)]
       | .error _ => [] }
 
+/-- non-vacuity of `adopted_service_is_modelled_service_at`: the oracle `oHyb` (the table adopted for `code1`) and
+`code1` satisfy both hypotheses for the truth-table library, so the driver's service and the modelled service parse
+`code1` alike under both strategies -/
+theorem adopted_service_example (p : Parsing) :
+    (SrvC.libEnv oHyb).parse p code1 = (hybEnv (fun n => Bio.ttLib n) (fun _ => Bio.ttDump2)).parse p code1 := by
+  apply adopted_service_is_modelled_service_at (fun n => Bio.ttLib n) (fun _ => Bio.ttDump2) oHyb code1
+  · intro a r hp
+    simp only [oHyb, hp]
+    simp [SrvC.lookupS]
+  · intro x hc hv
+    have := parseHybrid_rejects_of_bad_names (fun n => Bio.ttLib n) (fun _ => Bio.ttDump2)
+      (SrvC.parseKey .hybrid code1) code1 x hc hv
+    simp only [oHyb, this]
+    rfl
+
 def histSrvDel : List (Event String) :=
   [.req ⟨0, .register "u" "pw" 0⟩, .req ⟨0, .login "u" "pw"⟩, .req ⟨0, .add "p" (some code1) none .naive "~t" "~p"⟩,
    .finish 0 0, .write 0 0, .req ⟨0, .delete "p"⟩, .req ⟨0, .add "p" (some code1) none .hybrid "~t" "~p"⟩,
@@ -1277,7 +1295,9 @@ example : docsAt (runAll Etoy {} (histRecreate.take 6)).1.db 1 5 = 0 ∧
 
 /-! ## 11. the search bound is irrelevant once the search has halted (review 2 item 4)
 
-`nogood_internal` in the Rust is a `loop` WITHOUT a bound; the model bounds it by a fuel. Every theorem above
+`nogood_internal` in the Rust is a `loop` WITHOUT a bound; the model bounds it by a fuel. Every `hybEnv` history theorem
+above (third review: NOT the `libEnv` theorems `reachable_served_answer_checked`, `served_answer*`,
+`reachable_served_answer(_naive)`, which stay stated at 10^6 - transfer them with `solve_fuel_monotone`)
 that mentions `SrvA.strategyHalts 1000000 a s` is the instance `F0 = F = 10^6` of a statement "for every bound
 `F ≥ F0`", `F0` any bound within which the search halts - and such an `F0` always exists
 (`stored_answers_exact_every_large_bound`). -/
@@ -1464,6 +1484,53 @@ theorem add_race_breaks_the_sentence :
     C17.E0.parse .naive 9 ≠ .ok (4, 4) :=
   ⟨C17.add_race_duplicate.1, C17.add_race_duplicate.2.2.1, C17.add_race_wrong_answer.1, by decide⟩
 
+/-! ### third review (audit L1): instantiating examples that were missing; `decide +kernel` DOES evaluate the parser on
+a string literal (the comments saying otherwise are out of date) -/
+section ThirdReview
+open ServerCmd
+-- 1. accepted_solve_eventually_stored instantiated from a REQUEST on the toy env
+example : True := by
+  have h := accepted_solve_eventually_stored Etoy (runAll Etoy {} (histOk.take 6)).1 0 5 .ground (by decide)
+    [.finish 1 0, .write 1 0] [.req ⟨1, .solve 5 .complete⟩] (by decide) (by decide)
+  trivial
+-- 2. not_reported_as_running on histOk
+example : Task.solve .ground ∉ (ServerM.exec (runAll Etoy {} histOk).1.db (.rTasks 1 5 : Cmd Nat Nat Nat Nat)).2 :=
+  not_reported_as_running Etoy histOk 1 5 (.solve .ground) (by decide)
+
+-- is the hypothesis trivially true (no tasks at all)?
+example : ((runAll Etoy {} histOk).1.db.tasks.filter (fun t => t.username == 1 && t.name == 5)).length = 2 := by decide
+
+def aliceT : CState Nat Nat Nat Nat :=
+  runC Etoy {} (seqSchedule Etoy {} [.req ⟨0, .register 1 7 0⟩, .req ⟨0, .login 1 7⟩])
+
+/-- **D14 also breaks C08's web sentence**: `Etoy` REFUSES code 9, yet under the `add ∥ add` interleaving of finding D14
+(command granularity; no deletion, rename or stale task involved) the document with code 9 ends up showing a framework
+- `C08.web_no_answer_for_rejected_text` is a statement about histories of ATOMIC requests only -/
+theorem add_race_answers_rejected_code : Etoy.parse .naive 9 = .error .parseError ∧
+    (runC Etoy (runC Etoy aliceT C17.addRace)
+      ([.finish 0 0, .write 0 0, .finish 0 1, .write 0 1] ++ [.arrive ⟨0, .get 5⟩, .cmd 0, .cmd 0, .deliver 0])).out.getLast?
+      = some (0, ⟨200, .keep, .problem ⟨5, 9, .naive, .some 4, {}, []⟩⟩) := by
+  constructor <;> decide
+
+-- hypotheses of hybrid_parse_rejects_special_labels, kernel-checked
+theorem condD6 : (conditions codeD6).toOption.map (·.1) = some ["a&b", "c"] := by decide +kernel
+
+example : ∃ x, conditions codeD6 = .ok x ∧ (∃ n ∈ x.1, CliM.bioNameOK n.toList = false) ∧
+    (∃ a r, parseNaive "k" codeD6 = .ok (a, r) ∧ a.names = x.1) ∧
+    parseHybrid Bio.ttLib Bio.ttDump "k" codeD6 = .error .panic := by
+  cases hc : conditions codeD6 with
+  | error e => have := condD6; rw [hc] at this; cases this
+  | ok x =>
+    have h1 := condD6
+    rw [hc] at h1
+    simp only [Except.toOption, Option.map_some, Option.some.injEq] at h1
+    have hbad : ∃ n ∈ x.1, CliM.bioNameOK n.toList = false := by
+      rw [h1]; exact ⟨"a&b", by simp, by decide⟩
+    exact ⟨x, rfl, hbad, hybrid_parse_rejects_special_labels Bio.ttLib Bio.ttDump "k" codeD6 x hc hbad⟩
+
+
+end ThirdReview
+
 end C16
 
 #print axioms C16.reachable_served_answer_all
@@ -1472,7 +1539,15 @@ end C16
 #print axioms C16.hybrid_parse_rejects_special_labels
 #print axioms C16.hybrid_parse_task_stores_error_for_special_labels
 #print axioms C16.hybrid_parse_denotes_code_tt
-#print axioms C16.adopted_service_is_modelled_service
+#print axioms C16.adopted_service_is_modelled_service_at
+#print axioms C16.adopted_service_example
+#print axioms C16.add_race_answers_rejected_code
+#print axioms C16.hybrid_parse_names_ok
+#print axioms C16.hybrid_parse_ok_of_names
+#print axioms C16.adopted_service_unadopted_valid_code
+#print axioms C16.add_not_interleaved_keeps_keys_unique
+#print axioms C16.no_d9_all_belong
+#print axioms C16.deletion_free_no_d9
 #print axioms C16.running_entries_are_unfinished_tasks
 #print axioms C16.not_reported_as_running
 #print axioms C16.solve_fuel_monotone
